@@ -5,7 +5,8 @@
 // right-hand sides and matrix arrays are kept in read-only pages (mprotect) for the whole case and are digested after every call;
 // the object's own copy of the system matrix is digested after every call.
 // Sub-checks: history (make_solver<runtime::preconditioner, runtime::solver::wrapper>), throwing (solver objects with a harness
-// preconditioner that throws in the middle of a solve), direct (skyline_lu histories).
+// preconditioner that throws in the middle of a solve), midsolve / lgmres-toggle (abort after at least one restart cycle; always_reset switched
+// back on), direct (skyline_lu histories).
 #include <amgcl/backend/builtin.hpp>
 #include <amgcl/adapter/crs_tuple.hpp>
 #include <amgcl/amg.hpp>
@@ -15,6 +16,7 @@
 #include <amgcl/relaxation/runtime.hpp>
 #include <amgcl/preconditioner/runtime.hpp>
 #include <amgcl/solver/skyline_lu.hpp>
+#include <amgcl/solver/lgmres.hpp>
 #include <vf/hooks.hpp>
 #include <vf/gen.hpp>
 #include <vf/krylov.hpp>
@@ -265,6 +267,71 @@ static void sub_throwing() {
 }
 
 //---------------------------------------------------------------------------
+// midsolve: the harness preconditioner throws on its k-th application with k chosen so that the failing call is aborted in the MIDDLE of a solve, after
+// at least one complete restart cycle / BiCGStab(L) sweep / IDR(s) space (the application count of an unfaulted run of the same call is measured first).
+// Every solver with restart or cycle state (gmres, fgmres, lgmres, bicgstabl, idrs; the others ride along) is configured with a short cycle and a weak
+// (Jacobi) preconditioner so that solves run over many cycles; the aborted call is followed by ordinary solves compared bitwise with a fresh object.
+// lgmres-toggle: one LGMRES object is used with always_reset = false (exempt), then prm.always_reset is switched to true: equality with a fresh
+// always_reset = true object is demanded again from the first such call on.
+//---------------------------------------------------------------------------
+static void sub_midsolve() {
+    long N = vf::tier(72, 2400);
+    for (long idx = 0; idx < N; ++idx) {
+        if (!vf::selected("midsolve", idx)) continue;
+        Rng r(vf::case_seed("midsolve", idx)); const SolverCfg &cfg = vf::SOLVER_CFGS[idx % 12]; std::string t = cfg.type;
+        bool spd = t == "cg" || r.coin(0.4); World W; build_world(W, r, spd);
+        ptree prm; prm.put("type", t); prm.put("maxiter", 300); prm.put("tol", 1e-8); if (cfg.has_side) prm.put("pside", cfg.left ? "left" : "right");
+        long cyc = 2;       // preconditioner applications in one restart cycle / sweep (upper estimate)
+        if (t == "gmres" || t == "fgmres") { int Mr = (int)r.range(2, 5); prm.put("M", Mr); cyc = Mr + 2; }
+        if (t == "lgmres") { int Mr = (int)r.range(2, 4), Kr = (int)r.range(1, 3); prm.put("M", Mr); prm.put("K", Kr); cyc = Mr + Kr + 2; }
+        if (t == "bicgstabl") { int Lp = (int)r.pick(std::vector<int>{2, 3, 4}); prm.put("L", Lp); if (r.coin(0.4)) prm.put("delta", 1e-2); cyc = 2 * Lp + 2; }
+        if (t == "idrs") { int sv = (int)r.range(2, 5); prm.put("s", sv); if (r.coin()) prm.put("smoothing", true); if (r.coin(0.3)) prm.put("replacement", true); cyc = sv + 2; }
+        std::ostringstream ps; boost::property_tree::write_json(ps, prm, false);
+        Case c("midsolve", idx, J().s("solver", vf::cfg_name(cfg)).n("n", W.n).bl("spd", spd).s("params", ps.str()));
+        try {
+            ThrowingJacobi P; P.A = std::make_shared<M>(W.Aro.tuple()); P.dinv.resize(W.n); for (size_t i = 0; i < W.n; ++i) for (ptrdiff_t j = W.A.ptr[i]; j < W.A.ptr[i + 1]; ++j) if ((size_t)W.A.col[j] == i) P.dinv[i] = 1.0 / W.A.val[j];
+            amgcl::runtime::solver::wrapper<B> obj(W.n, prm);
+            int nsteps = (int)vf::tier(5, 9); int aborted = 0;
+            for (int k = 0; k < nsteps; ++k) {
+                int rhs = (int)r.range(0, 3), x0 = (int)r.range(0, 2); bool want_throw = k == 1 || k == 3 || (k > 4 && r.coin(0.4)); long at = -1;
+                auto call = [&](amgcl::runtime::solver::wrapper<B> &S, ThrowingJacobi &Pc, long throw_at) { Result R; R.x = W.X0[x0]; Pc.count = 0; Pc.throw_at = throw_at; auto f = W.Fro[rhs]->range();
+                    try { std::tie(R.iters, R.res) = S(Pc, f, R.x); } catch (const std::exception &e) { R.threw = true; R.what = e.what(); } return R; };
+                if (want_throw) {   // how many applications does the unfaulted call make?  (fresh object, not part of the history)
+                    ThrowingJacobi Pm = P; amgcl::runtime::solver::wrapper<B> probe(W.n, prm); call(probe, Pm, -1); long T = Pm.count;
+                    if (T >= 2 * cyc + 4) at = r.range(cyc + 2, std::min(T - 1, 6 * cyc)); else vf::obs_sum("midsolve_call_too_short_to_abort_after_a_cycle"); }
+                Result a = call(obj, P, at); ThrowingJacobi Pf = P; amgcl::runtime::solver::wrapper<B> fresh(W.n, prm); Result b = call(fresh, Pf, at);
+                std::string diff = compare(a, b);
+                c.check(diff.empty(), vf::cfg_name(cfg) + ":differs-from-fresh-object" + (at > 0 ? "-in-aborted-call" : (aborted ? "-after-aborted-call" : "")), "call " + std::to_string(k) + " on the reused solver object differs from a fresh one: " + diff,
+                        J().n("step", k).n("throw_at_application", at).n("aborted_calls_before", aborted));
+                if (at > 0) c.check(a.threw, vf::cfg_name(cfg) + ":abort-not-observed", "the preconditioner was set to throw but the call returned normally (harness consistency)", J().n("throw_at_application", at));
+                c.check(W.Fro[rhs]->digest() == W.Fdg[rhs], vf::cfg_name(cfg) + ":rhs-modified", "right-hand side changed by the call");
+                if (a.threw) { ++aborted; vf::obs_sum("calls_aborted_mid_solve"); } vf::obs_sum("history_steps");
+            }
+            if (aborted) c.nontrivial();
+        } catch (const std::exception &e) { c.fail("exception:midsolve-setup", e.what()); }
+    }
+    // LGMRES: always_reset false -> true between calls
+    long N2 = vf::tier(24, 800);
+    for (long idx = 0; idx < N2; ++idx) {
+        if (!vf::selected("lgmres-toggle", idx)) continue;
+        Rng r(vf::case_seed("lgmres-toggle", idx)); bool left = idx % 2; World W; build_world(W, r, r.coin(0.4));
+        typedef amgcl::solver::lgmres<B> LG; LG::params prm; prm.M = (unsigned)r.range(2, 5); prm.K = (unsigned)r.range(1, 3); prm.maxiter = 300; prm.tol = 1e-8; prm.pside = left ? amgcl::preconditioner::side::left : amgcl::preconditioner::side::right;
+        Case c("lgmres-toggle", idx, J().s("solver", left ? "lgmres-left" : "lgmres").n("n", W.n).n("M", prm.M).n("K", prm.K));
+        try {
+            ThrowingJacobi P; P.A = std::make_shared<M>(W.Aro.tuple()); P.dinv.resize(W.n); for (size_t i = 0; i < W.n; ++i) for (ptrdiff_t j = W.A.ptr[i]; j < W.A.ptr[i + 1]; ++j) if ((size_t)W.A.col[j] == i) P.dinv[i] = 1.0 / W.A.val[j];
+            LG::params keep = prm; keep.always_reset = false; LG obj(W.n, keep);
+            auto call = [&](LG &S, int rhs, int x0) { Result R; R.x = W.X0[x0]; P.count = 0; P.throw_at = -1; auto f = W.Fro[rhs]->range(); try { std::tie(R.iters, R.res) = S(P, f, R.x); } catch (const std::exception &e) { R.threw = true; R.what = e.what(); } return R; };
+            int nkeep = (int)r.range(1, 3); for (int k = 0; k < nkeep; ++k) { call(obj, (int)r.range(0, 3), (int)r.range(0, 2)); vf::obs_sum("lgmres_keep_steps_exempt"); }
+            obj.prm.always_reset = true;
+            for (int k = 0; k < 3; ++k) { int rhs = (int)r.range(0, 3), x0 = (int)r.range(0, 2); Result a = call(obj, rhs, x0); LG fresh(W.n, prm); Result b = call(fresh, rhs, x0); std::string diff = compare(a, b);
+                c.check(diff.empty(), std::string(left ? "lgmres-left" : "lgmres") + ":differs-from-fresh-object-after-always_reset-switched-on", "call " + std::to_string(k) + " after switching always_reset back to true differs from a fresh object: " + diff, J().n("step", k).n("calls_with_always_reset_false", nkeep));
+                vf::obs_sum("history_steps"); }
+            c.nontrivial();
+        } catch (const std::exception &e) { c.fail("exception:lgmres-toggle-setup", e.what()); }
+    }
+}
+
+//---------------------------------------------------------------------------
 // direct: skyline_lu histories (scratch vector y)
 //---------------------------------------------------------------------------
 static void sub_direct() {
@@ -296,6 +363,7 @@ int main(int argc, char **argv) {
     vf::obs_add("threads_seen", std::to_string(omp_get_max_threads()));
     if (vf::sub_enabled("history")) sub_history();
     if (vf::sub_enabled("throwing")) sub_throwing();
+    if (vf::sub_enabled("midsolve") || vf::sub_enabled("lgmres-toggle")) sub_midsolve();
     if (vf::sub_enabled("direct")) sub_direct();
     return vf::finish();
 }
